@@ -345,6 +345,7 @@ fn scenario(env: &Env, k: u64, case: u64, rng: &mut rand::rngs::SmallRng, d: &mu
         ));
         d.nontrivial(crate::fnv_str(&format!("{:?}|{}|{}|{}|{}|{}", before.state, inj.flags, inj.seq_class, inj.ack_class, inj.wnd_class, inj.len.min(2))));
         d.tally("injections", 1);
+        d.evaluations += 1;
         if unacceptable {
             d.tally("unacceptable_injections", 1);
         }
